@@ -622,6 +622,210 @@ func pairsCase(c *ev.Case) {
 	}
 }
 
+// bulkCase: operations over MANY keys. One writer thread performs a sequence of
+// multi-key writes, each of which must be atomic (Delete of more than a hundred
+// keys, Map(fn) rewriting every value, Clear, Delete of the rest); observer threads
+// take whole-map snapshots (Len, Keys, Values, Range, All, GetWithMap over all
+// keys). Every snapshot must equal the map as it was after some prefix of the
+// writer's operations: a mixture is a violation.
+func bulkCase(c *ev.Case, controlled bool) {
+	rng := c.Rng
+	K := rng.Pick(130, 200, 300, 513)
+	kv := mapz.NewSafeKV[int64, int64](0)
+	cur := map[int64]int64{}
+	for k := 0; k < K; k++ {
+		kv.Set(int64(k), 1000)
+		cur[int64(k)] = 1000
+	}
+	canon := func(m map[int64]int64) string { return pairsString(m) }
+	states := map[string]int{canon(cur): 0}
+	type wop struct {
+		kind string
+		keys []int64
+		gen  int64
+	}
+	var wops []wop
+	nw := rng.Range(1, 3)
+	for i := 0; i < nw; i++ {
+		switch rng.Intn(4) {
+		case 0, 1: // delete a large subset in one call
+			var ks []int64
+			for k := range cur {
+				if rng.Chance(3, 4) {
+					ks = append(ks, k)
+				}
+			}
+			sort.Slice(ks, func(a, b int) bool { return ks[a] < ks[b] })
+			wops = append(wops, wop{kind: "Delete", keys: ks})
+			for _, k := range ks {
+				delete(cur, k)
+			}
+		case 2:
+			g := int64(2000 + i)
+			wops = append(wops, wop{kind: "MapSetAll", gen: g})
+			for k := range cur {
+				cur[k] = g
+			}
+		default:
+			wops = append(wops, wop{kind: "Clear"})
+			cur = map[int64]int64{}
+		}
+		cp := map[int64]int64{}
+		for k, v := range cur {
+			cp[k] = v
+		}
+		states[canon(cp)] = i + 1
+	}
+	allKeys := make([]int64, K)
+	for i := range allKeys {
+		allKeys[i] = int64(i)
+	}
+	type obs struct{ kind, snap string }
+	nobs := rng.Range(1, 3)
+	results := make([][]obs, nobs)
+	observer := func(t int) func() {
+		return func() {
+			for j := 0; j < 3; j++ {
+				kind := []string{"Keys+Values", "Range", "All", "GetWithMap", "Len"}[(t+j+c.Index)%5]
+				var snap string
+				switch kind {
+				case "Range":
+					m := map[int64]int64{}
+					kv.Range(func(k, v int64) bool { m[k] = v; return true })
+					snap = canon(m)
+				case "All":
+					m := map[int64]int64{}
+					for k, v := range kv.All() {
+						m[k] = v
+					}
+					snap = canon(m)
+				case "GetWithMap":
+					m := map[int64]int64{}
+					for _, k := range allKeys {
+						m[k] = -1
+					}
+					kv.GetWithMap(m)
+					for k, v := range m {
+						if v == -1 {
+							delete(m, k)
+						}
+					}
+					snap = canon(m)
+				case "Len":
+					snap = fmt.Sprintf("len=%d", kv.Len())
+				default:
+					ks := kv.Keys()
+					vs := kv.Values()
+					snap = fmt.Sprintf("nkeys=%d nvalues=%d", len(ks), len(vs))
+					_ = vs
+				}
+				results[t] = append(results[t], obs{kind, snap})
+				sched.OpDone()
+			}
+		}
+	}
+	writer := func() {
+		for _, w := range wops {
+			switch w.kind {
+			case "Delete":
+				kv.Delete(w.keys...)
+			case "MapSetAll":
+				kv.Map(func(m mapz.KV[int64, int64]) {
+					for k := range m {
+						m[k] = w.gen
+					}
+				})
+			default:
+				kv.Clear()
+			}
+			sched.OpDone()
+		}
+	}
+	bodies := []func(){writer}
+	for t := 0; t < nobs; t++ {
+		bodies = append(bodies, observer(t))
+	}
+	desc := fmt.Sprintf("K=%d writer=", K)
+	for _, w := range wops {
+		if w.kind == "Delete" {
+			desc += fmt.Sprintf("Delete(%d keys),", len(w.keys))
+		} else {
+			desc += w.kind + ","
+		}
+	}
+	c.Logf("bulk: %s observers=%d", desc, nobs)
+	if controlled {
+		sc := sched.Config{Seed: rng.Uint64(), MaxSteps: 200000, Strategy: sched.RandomWalk}
+		if rng.Bool() {
+			sc.Strategy = sched.PCT
+			sc.Depth = rng.Range(1, 4)
+			sc.EstSteps = 60
+		}
+		res := sched.Run(sc, bodies)
+		if res.Panic != nil {
+			c.Failf("panic/ctl", "panic in a SafeKV call: %v\n%s", res.Panic, res.PanicStack)
+			return
+		}
+		if res.Aborted {
+			c.Add("aborted_runs", 1)
+			return
+		}
+		c.Add("bulk_switches", int64(res.Switches))
+	} else {
+		var wg sync.WaitGroup
+		start := make(chan struct{})
+		for _, b := range bodies {
+			wg.Add(1)
+			go func(b func()) { defer wg.Done(); <-start; b() }(b)
+		}
+		close(start)
+		wg.Wait()
+	}
+	// sizes of the admissible states, for the Len / Keys+Values observations
+	sizes := map[string]bool{}
+	for st := range states {
+		n := strings.Count(st, ";")
+		sizes[fmt.Sprintf("len=%d", n)] = true
+		sizes[fmt.Sprintf("nkeys=%d nvalues=%d", n, n)] = true
+	}
+	for t := range results {
+		for _, o := range results[t] {
+			c.Logf("observer %d: %s -> %d entries", t, o.kind, strings.Count(o.snap, ";"))
+			ok := false
+			if o.kind == "Len" || o.kind == "Keys+Values" {
+				// Keys and Values are two calls: each must be an admissible size
+				if o.kind == "Len" {
+					ok = sizes[o.snap]
+				} else {
+					var a, b int
+					fmt.Sscanf(o.snap, "nkeys=%d nvalues=%d", &a, &b)
+					ok = sizes[fmt.Sprintf("len=%d", a)] && sizes[fmt.Sprintf("len=%d", b)]
+				}
+			} else {
+				_, ok = states[o.snap]
+			}
+			if !ok {
+				c.Witness = map[string]any{"writer": desc, "observation": o.kind, "entries_seen": strings.Count(o.snap, ";")}
+				c.Failf("bulk-torn-snapshot", "%s observed a map state that exists after no prefix of the writer's atomic operations (%s): saw %d entries / %s", o.kind, desc, strings.Count(o.snap, ";"), clipStr(o.snap, 120))
+				return
+			}
+			c.Add("bulk_snapshots_checked", 1)
+		}
+	}
+	c.Add("bulk_cases", 1)
+	c.Distinct(ev.HashString(desc + fmt.Sprint(nobs, controlled, c.Index%5)))
+	if c.WantSample() {
+		c.Sample("bulk: " + desc + fmt.Sprintf(" %d observers taking whole-map snapshots; every snapshot equals the map after some prefix of the writer's operations", nobs))
+	}
+}
+
+func clipStr(s string, n int) string {
+	if len(s) > n {
+		return s[:n] + "…"
+	}
+	return s
+}
+
 func main() {
 	r := ev.New("C12")
 	r.Rule("pairs: one case = two SafeKV methods hammered concurrently (plus a random mix) under the race detector, all 16x16 ordered pairs; distinct = distinct method pairs. ctl: (initial map, per-thread operation lists, schedule trace), distinct = hash of all three with at least one context switch. free: distinct canonical histories with an overlapping pair.")
@@ -634,6 +838,8 @@ func main() {
 	r.CasesProc("pairs/race", r.N(np, 4*np), ev.Opt{Bin: "race", Procs: 8, AlwaysLog: true}, pairsCase)
 	nctl := r.N(40000, 1500000)
 	r.CasesProc("ctl", nctl, ev.Opt{Bin: "shim", Procs: 14}, ctlCase)
+	r.CasesProc("bulk/ctl", r.N(6000, 200000), ev.Opt{Bin: "shim", Procs: 14}, func(c *ev.Case) { bulkCase(c, true) })
+	r.CasesProc("bulk/race", r.N(1500, 30000), ev.Opt{Bin: "race", Procs: 6, AlwaysLog: true}, func(c *ev.Case) { bulkCase(c, false) })
 	nfree := r.N(5000, 100000)
 	r.CasesProc("free/race", nfree, ev.Opt{Bin: "race", Procs: 6, AlwaysLog: true}, freeCase)
 	r.CasesProc("free/jitter", nfree, ev.Opt{Bin: "shimrace", Procs: 6, AlwaysLog: true, Env: []string{"VERIF_JITTER=1"}}, freeCase)
@@ -647,5 +853,6 @@ func main() {
 	r.Require("ops_overlapped", 1000)
 	r.Require("pair_runs", int64(np))
 	r.Require("rounds_setnx", 100)
+	r.Require("bulk_snapshots_checked", 10000)
 	r.Finish()
 }
